@@ -14,7 +14,6 @@ Trace == ndJsonDeserialize(TraceFile)
 VARIABLE l
 E == Trace[l]
 Report(prop, key) == CSVWrite("%1$s", <<ToJson([prop |-> prop, trace |-> E.id, line |-> l, key |-> key])>>, VFile)
-FsOf(s) == CASE s = "old" -> "old" [] s = "new" -> "new" [] s = "dir" -> "dir" [] s = "absent" -> "absent" [] OTHER -> "other"
 
 Mon ==
   LET q == E.p
@@ -32,7 +31,7 @@ Mon ==
   \* errors from the writer or the filesystem are returned, never swallowed
   /\ (E.wroteerr /\ E.status # "writeerror") => Report("C10", "writer error swallowed " \o key)
   /\ (E.wroteerr /\ E.status = "writeerror" /\ ~E.sameerr) => Report("C10", "writer error replaced " \o key)
-  /\ (q.entry = "File.Save" /\ ~renderFails /\ q.target \notin {"absent", "present"} /\ E.status = "nil") => Report("C10", "filesystem error swallowed " \o q.target)
+  /\ (q.entry = "File.Save" /\ ~renderFails /\ q.target \notin {"absent", "present", "nearsame"} /\ E.status = "nil") => Report("C10", "filesystem error swallowed " \o q.target)
   \* on success the writer has received, and the saved file contains, exactly the rendered output
   /\ (E.status = "nil" /\ q.entry # "File.Save" /\ ~E.goteq) => Report("C10", "writer did not receive exactly the output " \o key)
   /\ (E.status = "nil" /\ q.entry = "File.Save" /\ E.after # "new") => Report("C10", "saved file differs from the output")
@@ -40,7 +39,7 @@ Mon ==
   /\ (E.status = "panic") => Report("C10", "panic " \o key)
   /\ (~E.canary) => Report("C10", "a later, unrelated render does not receive exactly its output after " \o key \o " " \o E.status)
   /\ (~renderFails /\ ~E.wroteerr /\ q.entry # "File.Save" /\ E.status # "nil") => Report("C10", "spurious error " \o key)
-  /\ (~renderFails /\ q.entry = "File.Save" /\ q.target \in {"absent", "present"} /\ E.status # "nil") => Report("C10", "spurious error " \o key)
+  /\ (~renderFails /\ q.entry = "File.Save" /\ q.target \in {"absent", "present", "nearsame"} /\ E.status # "nil") => Report("C10", "spurious error " \o key)
 
 \* the pipeline variables are not driven by the trace (one event = one complete call): they stay at their start values
 TInit == l = 1 /\ p = [entry |-> "none"] /\ pc = "start" /\ calls = 0 /\ okbytes = 0 /\ result = "none" /\ fs = "absent"
